@@ -3,37 +3,39 @@
    [res]/[resolve_called] model _resolve_called_lambdas with fixes F06, F07, FC2, FC4 applied; [helper_capval] is FC5. *)
 From FA.Base Require Import PyAst Value Eval Traverse.
 From FA.Model Require Import Capture.
-From FA.Proofs Require Import Refine CaptureProofs CaptureSem.
+From FA.Proofs Require Import Refine RenameSem CaptureProofs CaptureSem CaptureGen.
 
-(* --- inline_sem (partial) ---
-   "Inlining = Python's call semantics": Base/Eval.v evaluates [Call (Lambda ps b) args] by Python's positional
-   binding, call by value; [resolve_called] replaces such calls by the substituted body - or, when an argument
+(* --- inline_sem (partial: first-order use of parameters; every expression; no hygiene hypothesis) ---
+   "Inlining = Python's call semantics": Base/Eval.v evaluates [Call (Lambda ps b) args] by Python's positional and
+   keyword binding, call by value; [resolve_called] replaces such calls by the substituted body - or, when an argument
    name is bound again inside the body (FC4), leaves the call - and must preserve the value.
    Full statement aimed at:  eval E e = Some v -> resolve_called e = Ok e' -> eval E e' = Some v  for every e.
-   Proved: for every backend, on the fragment [fragr true]: any nesting of called lambdas (helpers inside helpers'
-   arguments and bodies, inside lambdas of Select/Where/... and inside comprehensions), positional calls of
-   matching arity.  Binders that stay (method-call lambdas, comprehension targets) may occur at top level, under
-   other staying binders, and - new with FC4/this revision - inside the body of a lambda called with constant
-   arguments ([FCallLamC], e.g. a helper with an inner Select called as h(1, 2)); inside the body of a lambda
-   inlined with non-constant arguments no binder stays, and there the bail-out test is proved never to fire
-   ([fragr_false_no_binders]).  Still missing: bodies with staying binders called with non-constant arguments,
-   where FC4's test decides between inlining and leaving the call; both branches need the coincidence lemma of
-   the semantics (eval depends only on the names that occur).  That case is covered by the correspondence and the
-   value oracle, and by the Examples [inline_capture_bails] / [inline_shadow_inlined] below. *)
+   Proved: exactly that, for every backend, environment and EVERY expression tree (all node classes; bodies with
+   lambdas and comprehensions that stay; non-constant arguments; keyword calls; arity mismatches; any nesting),
+   with NO hygiene hypothesis: the proof uses the implementation's own bail-out test ([overlaps .. (inner_binders b)])
+   and the coincidence lemma Proofs/EvalAgree.v.  The one hypothesis left, [first_order e], is the declared limit of
+   the reference semantics (DESIGN section 3.2/7: lambdas are not values): no parameter of a called lambda is used as
+   the callee of a call by name inside its body.  [first_order_of_no_callee] gives a computable sufficient condition.
+   Missing: higher-order helpers (a parameter that is itself called, `def apply_to(f, v): return f(v)`): outside
+   the reference semantics, covered by the correspondence and the value oracle (generator family "higher-order"). *)
 Theorem inline_sem_partial :
   forall (B : backend) (ops : list string) e e' E v,
-    fragr true e -> resolve_called e = Ok e' ->
+    first_order e -> resolve_called e = Ok e' ->
     eval B ops E e = Some v -> eval B ops E e' = Some v.
-Proof. exact inline_sem_frag. Qed.
+Proof.
+  intros B ops e e' E v Hfo Hr. unfold resolve_called in Hr. inversion Hr; subst. apply res_sem; exact Hfo.
+Qed.
 Print Assumptions inline_sem_partial.
 
-(* the engine behind it, for an arbitrary stack of argument maps *)
-Theorem inline_sem_engine :
-  forall (B : backend) (ops : list string) cl e, fragr cl e ->
-    forall st E1 E2, (cl = true -> closed_st st) -> Rr B ops st E1 E2 ->
+(* the invariant behind it, for an arbitrary stack of argument maps [st]: [Rr] relates the environments through the
+   stack, [Inv] says no argument in flight mentions a name that a binder staying in [e] binds (what FC4 checks at each
+   call before inlining), [FO] that no parameter being substituted is a callee *)
+Theorem inline_sem_stack :
+  forall (B : backend) (ops : list string) e st E1 E2,
+    first_order e -> FO st e -> Inv st e -> Rr B ops st E1 E2 ->
     forall v, eval B ops E1 e = Some v -> eval B ops E2 (res st e) = Some v.
-Proof. intros B ops cl e H st E1 E2 Hc HR. exact (proj1 (sem_engine B ops) cl e H st E1 E2 Hc HR). Qed.
-Print Assumptions inline_sem_engine.
+Proof. intros B ops e st E1 E2. exact (res_ok_all B ops (S (size e)) e (Nat.lt_succ_diag_r _) st E1 E2). Qed.
+Print Assumptions inline_sem_stack.
 
 (* --- inline_leaves_by_name: a callable that cannot be inlined (source not a single-return function, or not
    captured at all) stays a call by name, with the same number of arguments and keywords --- *)
@@ -87,12 +89,12 @@ Proof. vm_compute. reflexivity. Qed.
 Example inline_sem_runs :
   let h := Lambda ["a"; "b"] (BinOp BSub (Name "a") (Name "b")) in
   let q := Call (Attr (Name "s") "Select") [Lambda ["j"] (Call h [Name "j"; Call h [Name "k"; Const (CInt 1)] [] []] [] [])] [] [] in
-  fragr true q /\
+  first_order q /\
   eval B0 ["Select"] [("s", VList [VInt 10; VInt 20]); ("k", VInt 3)] q = Some (VList [VInt 8; VInt 18]) /\
   eval B0 ["Select"] [("s", VList [VInt 10; VInt 20]); ("k", VInt 3)] (res [] q) = Some (VList [VInt 8; VInt 18]) /\
   res [] q = Call (Attr (Name "s") "Select") [Lambda ["j"] (BinOp BSub (Name "j") (BinOp BSub (Name "k") (Const (CInt 1))))] [] [].
 Proof.
-  split; [repeat (constructor; try reflexivity)|]. split; [vm_compute; reflexivity|]. split; vm_compute; reflexivity.
+  split; [apply first_order_of_no_callee; intros x; reflexivity|]. split; [vm_compute; reflexivity|]. split; vm_compute; reflexivity.
 Qed.
 
 (* FC4: def h(a): return a.jets.Select(lambda j: j.pt + a.pt), passed lambda  lambda j: h(j) : the argument's name is
@@ -102,9 +104,12 @@ Example inline_capture_bails :
                               [Lambda ["j"] (BinOp BAdd (Attr (Name "j") "pt") (Attr (Name "a") "pt"))] [] []) in
   let q := Call h [Name "j"] [] [] in
   let E := [("j", VDict [VStr "pt"; VStr "jets"] [VInt 10; VList [VDict [VStr "pt"] [VInt 1]]])] in
-  res [] q = q /\
+  first_order q /\ res [] q = q /\
   eval B0 ["Select"] E q = Some (VList [VInt 11]) /\ eval B0 ["Select"] E (res [] q) = Some (VList [VInt 11]).
-Proof. split; [vm_compute; reflexivity | split; vm_compute; reflexivity]. Qed.
+Proof.
+  split; [apply first_order_of_no_callee; intros x; reflexivity|].
+  split; [vm_compute; reflexivity | split; vm_compute; reflexivity].
+Qed.
 
 (* the same helper called with another name is inlined, and an inner called lambda re-using the name does not block it *)
 Example inline_shadow_inlined :
@@ -117,15 +122,16 @@ Example inline_shadow_inlined :
   = BinOp BAdd (BinOp BAdd (Name "x") (Const (CInt 2))) (Const (CInt 1)).
 Proof. split; vm_compute; reflexivity. Qed.
 
-(* a helper with an inner Select-lambda called with constant arguments is inside the theorem's fragment *)
-Example inline_sem_const_args :
+(* a helper with an inner Select-lambda (a binder that stays) and non-constant arguments: inside the theorem *)
+Example inline_sem_staying_binder :
   let h := Lambda ["k"] (Call (Attr (Name "s") "Select") [Lambda ["j"] (BinOp BAdd (Name "j") (Name "k"))] [] []) in
-  let q := Call h (map Const [CInt 5]) [] [] in
-  fragr true q /\
-  eval B0 ["Select"] [("s", VList [VInt 1; VInt 2])] q = Some (VList [VInt 6; VInt 7]) /\
-  eval B0 ["Select"] [("s", VList [VInt 1; VInt 2])] (res [] q) = Some (VList [VInt 6; VInt 7]).
+  let q := Call h [BinOp BAdd (Name "k0") (Const (CInt 2))] [] [] in
+  first_order q /\
+  eval B0 ["Select"] [("s", VList [VInt 1; VInt 2]); ("k0", VInt 3)] q = Some (VList [VInt 6; VInt 7]) /\
+  eval B0 ["Select"] [("s", VList [VInt 1; VInt 2]); ("k0", VInt 3)] (res [] q) = Some (VList [VInt 6; VInt 7]) /\
+  res [] q = Call (Attr (Name "s") "Select") [Lambda ["j"] (BinOp BAdd (Name "j") (BinOp BAdd (Name "k0") (Const (CInt 2))))] [] [].
 Proof.
-  split; [apply (FCallLamC true ["k"] _ [CInt 5]); [reflexivity | repeat constructor] | split; vm_compute; reflexivity].
+  split; [apply first_order_of_no_callee; intros x; reflexivity | split; [|split]; vm_compute; reflexivity].
 Qed.
 
 (* FC5: the helper's own free variables are frozen with the helper's own snapshot; a helper whose rewriting raises
